@@ -56,3 +56,20 @@ Section Symbols.
         * tauto.
   Qed.
 End Symbols.
+
+(* the same with symbols tagged by their kind: the only STATE VARIABLES an analytic update reads are columns of the
+   analytic sub-system itself (c < n, with a non-zero propagator entry) or the row's own variable *)
+Inductive tsym (Par : Type) := TVar (c : nat) | TProp (r c : nat) | TStep | TPar (p : Par).
+Arguments TVar {Par}. Arguments TProp {Par}. Arguments TStep {Par}. Arguments TPar {Par}.
+
+Theorem update_reads_own_solver (Par : Type) (n : nat) (bpars pspars : nat -> list Par) (Pnz : nat -> nat -> bool) (bnz annz : nat -> bool) (r c : nat) :
+  In (TVar c) (usyms (tsym Par) n TVar TProp TStep (fun k => map TPar (bpars k)) (fun k => map TPar (pspars k)) Pnz bnz annz r) ->
+  (c < n /\ Pnz r c = true) \/ c = r.
+Proof.
+  intros Hin. apply update_symbols in Hin.
+  destruct Hin as [[c' [Hc [Hp [E|E]]]]|[E|[E|[E|[E|E]]]]]; try discriminate.
+  - inversion E; subst. left. split; assumption.
+  - inversion E; subst. right. reflexivity.
+  - apply in_map_iff in E. destruct E as [p [E _]]. discriminate.
+  - apply in_map_iff in E. destruct E as [p [E _]]. discriminate.
+Qed.
